@@ -3,6 +3,7 @@ package main
 import (
 	"fmt"
 	"go/types"
+	"math/big"
 	"os"
 	"path/filepath"
 	"sort"
@@ -14,17 +15,19 @@ import (
 )
 
 type Engine struct {
-	repo      string
-	prog      *ssa.Program
-	pkgs      map[string]*packages.Package
-	ssaPkgs   map[string]*ssa.Package
-	contracts *ContractSet
-	loadS     float64
-	loadErrs  []string
-	overlay   map[string][]byte
-	known     []*KnownFinding
-	ginfo     map[*ssa.Global]globalInfo
-	usedLemmas map[*Lemma]bool
+	repo         string
+	prog         *ssa.Program
+	pkgs         map[string]*packages.Package
+	ssaPkgs      map[string]*ssa.Package
+	contracts    *ContractSet
+	loadS        float64
+	loadErrs     []string
+	overlay      map[string][]byte
+	known        []*KnownFinding
+	ginfo        map[*ssa.Global]globalInfo
+	usedLemmas   map[*Lemma]bool
+	tier         string // "thorough": all cases of `split` clauses; otherwise the quick sample
+	skippedCases int    // split cases left to the thorough tier
 }
 
 func newEngine(repo string) *Engine {
@@ -192,19 +195,84 @@ func (e *Engine) verifyContract(c *Contract) *FuncResult {
 			}
 			name += "[" + strings.Join(ks, ",") + "]"
 		}
-		vc := newVC(e, name, c)
-		for k, v := range inst {
-			tv, err := types.Eval(e.prog.Fset, nil, 0, v)
-			if err != nil {
-				fr.Err = "bad instantiation type " + v
-				return fr
+		// complete case splits: one VC per combination of cases
+		combos := [][]splitCase{nil}
+		for _, sp := range c.Splits {
+			var cases []splitCase
+			cases = append(cases, splitCase{sp: sp, kind: "lt"})
+			for v := sp.Lo; v <= sp.Hi; v++ {
+				cases = append(cases, splitCase{sp: sp, kind: "eq", val: v})
 			}
-			vc.subst[k] = tv.Type
+			cases = append(cases, splitCase{sp: sp, kind: "gt"})
+			var next [][]splitCase
+			for _, cb := range combos {
+				for _, cs := range cases {
+					next = append(next, append(append([]splitCase{}, cb...), cs))
+				}
+			}
+			combos = next
 		}
-		e.verifyFunc(vc, fn, c)
-		fr.VCs = append(fr.VCs, vc)
+		for _, cb := range combos {
+			cname := name
+			skip := false
+			for _, cs := range cb {
+				cname += "{" + cs.String() + "}"
+				if e.tier != "thorough" && !cs.inQuick() {
+					skip = true
+				}
+			}
+			if skip {
+				e.skippedCases++
+				continue
+			}
+			vc := newVC(e, cname, c)
+			vc.splitCases = cb
+			for k, v := range inst {
+				tv, err := types.Eval(e.prog.Fset, nil, 0, v)
+				if err != nil {
+					fr.Err = "bad instantiation type " + v
+					return fr
+				}
+				vc.subst[k] = tv.Type
+			}
+			e.verifyFunc(vc, fn, c)
+			fr.VCs = append(fr.VCs, vc)
+		}
 	}
 	return fr
+}
+
+// splitCase is one case of a `split` clause.
+type splitCase struct {
+	sp   *SplitSpec
+	kind string // "eq", "lt" (below lo), "gt" (above hi)
+	val  int64
+}
+
+func (c splitCase) String() string {
+	switch c.kind {
+	case "lt":
+		return fmt.Sprintf("%s<%d", c.sp.Expr.Src, c.sp.Lo)
+	case "gt":
+		return fmt.Sprintf("%s>%d", c.sp.Expr.Src, c.sp.Hi)
+	}
+	return fmt.Sprintf("%s=%d", c.sp.Expr.Src, c.val)
+}
+
+// inQuick: cases run in the quick tier (all of them when no `quick` list is given).
+func (c splitCase) inQuick() bool {
+	if len(c.sp.Quick) == 0 {
+		return true
+	}
+	if c.kind != "eq" {
+		return false
+	}
+	for _, q := range c.sp.Quick {
+		if q == c.val {
+			return true
+		}
+	}
+	return false
 }
 
 func shortKey(k string) string {
@@ -243,6 +311,40 @@ func (e *Engine) verifyFunc(vc *VC, fn *ssa.Function, c *Contract) {
 	vc.entryVars = vars
 	for _, r := range c.Requires {
 		vc.assert(sc.evalBool(r.X))
+	}
+	for _, cs := range vc.splitCases {
+		// this VC covers one case of a complete split (the cases are exhaustive by construction)
+		v := sc.eval(cs.sp.Expr.X)
+		var lit func(n int64) Term
+		signed := true
+		if isBV(v.T.Sort) {
+			w := bvWidth(v.T.Sort)
+			lit = func(n int64) Term { return bvLit(big.NewInt(n), w) }
+			signed = sc.signedOf(v)
+		} else {
+			lit = func(n int64) Term { return intLit(n) }
+		}
+		cmp := func(op string, a, b Term) Term {
+			if !isBV(a.Sort) {
+				if op == "lt" {
+					return lt(a, b)
+				}
+				return gt(a, b)
+			}
+			o := map[string]string{"lt": "bvslt", "gt": "bvsgt"}[op]
+			if !signed {
+				o = map[string]string{"lt": "bvult", "gt": "bvugt"}[op]
+			}
+			return app(SBool, o, a, b)
+		}
+		switch cs.kind {
+		case "eq":
+			vc.assert(eq(v.T, lit(cs.val)))
+		case "lt":
+			vc.assert(cmp("lt", v.T, lit(cs.sp.Lo)))
+		case "gt":
+			vc.assert(cmp("gt", v.T, lit(cs.sp.Hi)))
+		}
 	}
 	for _, r := range c.AssumedPre {
 		vc.note("ASSUMED (unchecked at call sites) precondition: " + r.Src)
